@@ -71,6 +71,12 @@ def jobs(pid, tier):
                 vrt('C02', [r'wake[12]_.*'], bound=3, workers=4, **R),
                 vrt('C02', [r'wake3_.*'], bound=2, workers=16, **R),
                 vrt('C07', [r'mx[23]_.*'], bound=3, workers=8, **R)]
+    if pid == 'C17':
+        if q:
+            return [vrt('C17', [r'sf1_.*', r'sf_copy_before_init'], bound=2, workers=2),
+                    vrt('C17', [r'sf2_(promfn|futfn)_(val|drop)_(wait-coro|coro-drop|drop-drop|copydrop-poll|coro-coro|wait-drop)_.*'], bound=2, workers=2)]
+        return [vrt('C17', [r'sf1_.*', r'sf_copy_before_init'], unbounded=True, workers=2),
+                vrt('C17', [r'sf2_.*'], bound=3, workers=4)]
     if pid == 'C10':
         return [seq('C10')]
     if pid == 'C09':
